@@ -428,6 +428,7 @@ def run(tier):
         ev.bound("%s: %d configurations" % (name, len(cs)), done, cases=len(cs))
     ev.extra["lattice_points"] = sum(len(cs) for _, cs in families(tier))
     ev.extra["completed_runs"] = ev.traces - ev.not_completed
+    judged.pop("_sample_signatures", None)
     ev.extra["judged_by_subclaim"] = judged
     ev.extra["alphabet"] = {"patterns": PATTERNS, "solutions": SOL, "stagnant": {str(k): v for k, v in STAG.items()}, "elements": ELEMENTS, "base_length_m": L0}
     pool.close()
@@ -463,6 +464,8 @@ def explore(cs, ev, findings, pool, dl, judged):
     # count judged sub-claims through the samples side channel: run_case returns 'judged'
     orig = ev.sample
 
+    seen_sig = judged.setdefault("_sample_signatures", {})
+
     def tap(s, limit=6):
         for k in s.get("judged", ()):
             judged[k] = judged.get(k, 0) + 1
@@ -470,8 +473,11 @@ def explore(cs, ev, findings, pool, dl, judged):
             judged["(runs in which the engine warned that it added moles)"] = judged.get("(runs in which the engine warned that it added moles)", 0) + 1
         if s.get("note"):
             judged["(runs without a mixing step: nothing to judge)"] = judged.get("(runs without a mixing step: nothing to judge)", 0) + 1
-        if len(ev.samples) < limit and (len(ev.samples) < 3 or s.get("judged")):
-            orig(s, limit)
+        # verbatim samples: at most two per combination of (family, judged sub-claims, multicomponent mode), twenty-four in all
+        sig = (s.get("case", {}).get("fam"), tuple(s.get("judged", ())), s.get("case", {}).get("mode"), "rc" in s)
+        if seen_sig.get(sig, 0) < 2:
+            seen_sig[sig] = seen_sig.get(sig, 0) + 1
+            orig(s, 24)
     ev.sample = tap
     try:
         return core.explore_cases(cs, run_case, ev, findings, pool, chunksize=4, deadline=dl)
